@@ -99,7 +99,7 @@ def search_cover(ctx):
     return _emit(d)
 
 
-@rule("LINE-SEEK", ["C12", "C01", "C02"], floor=4)
+@rule("LINE-SEEK", ["C12", "C01", "C02", "C04", "C08"], floor=4)
 def line_seek(ctx):
     """Multi-line '^' fast path: after trying the given start, every position following a U+000A (searched forward
     from the previous line start, not beyond) and lying before the end of input is tried, in order."""
@@ -343,7 +343,7 @@ def exh_seq(ctx):
     return _emit(d)
 
 
-@rule("CONTAINS-CAPTURING", ["C03"], floor=6)
+@rule("CONTAINS-CAPTURING", ["C03", "C05", "C19"], floor=6)
 def contains_capturing(ctx):
     """contains_capturing_expressions of every composite operation = some child is a Capture or itself contains
     capturing expressions (sibling agreement); leaves answer false (default)."""
